@@ -349,6 +349,103 @@ def run(ctx):
                          inputs=dict(notation=name, native=native, expression=e, probe=V(p)), observed=got, expected=w)
                     break
     per["adjacent_alternatives"] = adj
+    # ---- the native parsers that have a code-shaped model (bracket notation of maven and nuget, relationship strings of
+    #      deb and rpm, the nginx notation, the openssl version list), each against its model on well-formed, decorated
+    #      and malformed texts: the constraints handed to the range constructor, as a multiset, or the kind of error
+    pm = dict(texts=0, accepted=0, rejected=0, differences=0)
+    pool = ["1", "1.0", "1.5", "2", "2.0", "3", "3.1", "10", "1.0-alpha", "2.0.1", "0.9", "4.0", "a", "1.0.0.1", "1.0-SNAPSHOT", "v2", "01"]
+    nq = 150 if ctx.tier == "quick" else 4000
+
+    def observe(f):
+        try:
+            rng = f()
+            return "OK " + (",".join(sorted("*" if c.comparator == "*" else f"{vers.NAME.get(c.comparator, c.comparator)}:{text.hx(str(c.version))}" for c in rng.constraints)) or "-")
+        except vs.InvalidVersion:
+            return "ERR EInvalidVersion"
+        except ValueError:
+            return "ERR EValue"
+        except Exception as ex:  # noqa
+            return "ERR " + type(ex).__name__
+
+    def compare(stream, native, got, w):
+        nonlocal evals
+        evals += 1
+        pm["texts"] += 1
+        if w.startswith("OK "):
+            w = "OK " + (",".join(sorted(w[3:].split(","))) if w != "OK -" else "-")
+        pm["accepted" if got.startswith("OK") else "rejected"] += 1
+        if got != w:
+            pm["differences"] += 1
+            if len(diffs) < 5:
+                diffs.append(dict(stream=stream, native=native, model=w, impl=got))
+
+    def mutate(s, extra):
+        if r.random() < 0.3:
+            i = r.randrange(len(s) + 1)
+            s = s[:i] + r.choice(extra) + s[i:]
+        return s
+
+    def ascii_only(ts):
+        return [t for t in dict.fromkeys(ts) if all(ord(c) < 128 for c in (t if isinstance(t, str) else "".join(t)))]
+
+    # bracket notation
+    def br_alt():
+        if r.random() < 0.25:
+            return "[" + r.choice(pool) + "]"
+        lo, hi = r.choice(pool + [""] * 4), r.choice(pool + [""] * 4)
+        return r.choice("[(") + lo + r.choice([",", ",", " , "]) + hi + r.choice("])")
+
+    def br_text():
+        k = r.random()
+        if k < 0.35:
+            alts = random_expr(r, max_alts=3, exclusions=False)
+            return render_maven(r, alts) if alts else "[1.0]"
+        s = r.choice([",", ",", " , ", ",,", ""]).join(br_alt() for _ in range(r.choice([1, 1, 2, 2, 3])))
+        return r.choice(pool) if k > 0.95 else mutate(s, ["(", "[", ")", "]", ",", " ", "x", "1", "\t"])
+
+    br_fixed = ["", "[]", "()", "(,)", "[,]", "[1,2,3]", "[1.0,1]", "[1,2)[3,4]", "[1,),[0,2]", "[ 1.0 , 2.0 ]", "[1.0\t,2.0]", "]", "[", "[1", "1]", "[1],",
+                "[1],,[2]", "[2],[1]", "(,1],(,2]", "[1,2],[2,3]", "[1,2),[2,3]", "[1.0]", "(,1.0],[1.2,)", "[1.0,2.0)", "(1.0)", "[2,1]", "[1.0,1.0]"]
+    texts = ascii_only(br_fixed + [br_text() for _ in range(nq)])
+    for which, rname in (("maven", "MavenVersionRange"), ("nuget", "NugetVersionRange")):
+        rcls = getattr(vr, rname)
+        want = core.run_driver(ctx, [f"mavennative {which} {text.hx(t)}" for t in texts])
+        for t, w in zip(texts, want):
+            compare("bracket parser / " + which, t, observe(lambda: rcls.from_native(t)), w)
+
+    # relationship strings
+    rel_versions = ["1.0", "2.3", "1:1.1.4", "2.8.16-z", "3.5.6", "1.0~rc1", "0", "1.0-1", "2.0+dfsg", "a", "1.0.0", "v1", "5"]
+    for which, rname, strip in (("deb", "DebianVersionRange", ")("), ("rpm", "RpmVersionRange", ",")):
+        rcls = getattr(vr, rname)
+        keys = list(rcls.vers_by_native_comparators) + ["~", "", "=>", "<<<", "!", "==="]
+
+        def rel_item():
+            s = r.choice(keys) + r.choice(["", " ", "  "]) + r.choice(rel_versions)
+            if r.random() < 0.4:
+                s = r.choice(list(strip) + [""]) * r.choice([1, 2]) + s + r.choice(list(strip) + [""])
+            return mutate(s, [" ", "(", ")", ",", "<", ">", "=", "\t"]) if r.random() < 0.6 else s
+        lists = [[rel_item() for _ in range(r.choice([1, 1, 2, 3]))] for _ in range(nq)]
+        lists = [l for l in lists if all(ord(c) < 128 for c in "".join(l))]
+        want = core.run_driver(ctx, [f"relations {which} " + ",".join(text.hx(x) for x in l) for l in lists])
+        for l, w in zip(lists, want):
+            compare("relationship strings / " + which, l, observe(lambda: rcls.from_natives(l)), w)
+
+    # nginx and openssl
+    nv = ["1.5.10", "0.7.52", "0.8.39", "1.21.0", "1.20.1", "1.4.1", "1.5.0", "0.6.18", "1.22", "1", "v1.3", "1.0.0-rc1", "1.2.3+b"]
+    ov = ["1.0.1af", "3.0.1", "1.1.1nf", "0.9.8", "1.0.2K", "3.0.0-alpha1", "1.1.0-pre2", "1.0.0", "3.1"]
+
+    def ng_clause():
+        k = r.random()
+        return r.choice(nv) + "-" + r.choice(nv) if k < 0.3 else r.choice(nv) + "+" if k < 0.6 else r.choice(nv)
+    ng_texts = ascii_only(["all", "ALL", " a l l ", "none", "", "1.5.0+, 1.4.1+", "1.1.4-1.2.8, 1.3.9-1.4.0"] +
+                          [mutate(r.choice([", ", ","]).join(ng_clause() for _ in range(r.choice([1, 1, 2, 3]))), [" ", ",", "-", "+", "x", "A", "\t", "all"]) for _ in range(nq)])
+    want = core.run_driver(ctx, [f"nginxnative {text.hx(t)}" for t in ng_texts])
+    for t, w in zip(ng_texts, want):
+        compare("nginx notation", t, observe(lambda: vr.NginxVersionRange.from_native(t)), w)
+    os_texts = ascii_only([""] + [mutate(r.choice([", ", ","]).join(r.choice(ov) for _ in range(r.choice([1, 2, 3]))), [" ", ",", "-", "+", "x", "A", "\t"]) for _ in range(nq)])
+    want = core.run_driver(ctx, [f"opensslnative {text.hx(t)}" for t in os_texts])
+    for t, w in zip(os_texts, want):
+        compare("openssl version list", t, observe(lambda: vr.OpensslVersionRange.from_native(t)), w)
+    per["native_parser_models"] = pm
     # ---- shorthands
     sh = dict(cases=0, probes=0, disagreements=0)
     for name, native, kind, (a, b, c) in shorthand_cases(r, 6 if ctx.tier == "quick" else 120):
@@ -395,5 +492,5 @@ def run(ctx):
                samples=samples, per_notation=per, conversion_model_differences=len(diffs))
     return core.finish(ctx, proofs, cov, violations, known_seen,
                        assumptions=["the native matching rules are the ones stated in coq/Native (written from the ecosystems' documentation); the abstract theorem assumes the scheme's order is a "
-                                    "total preorder (C01/C02); well-formedness of the result is checked on the implementation, not proved; shorthand theorems are on the semver model (npm, nginx), "
+                                    "total preorder (C01/C02); shorthand theorems are on the semver model (npm, nginx), "
                                     "conan and gem shorthands use the same rules on numeric triples and are evaluated only"])
